@@ -442,6 +442,33 @@ func c17R6(c *Ctx) {
 		}
 	})
 	c.check(timer, "connect/timer-arm", c.pos(g.Pos()), "the wait for the connect goroutine has a timer arm", "the wait for the tunnel has no timer arm")
+	// universal form: every wait of this function for the connect goroutine is such a select — a bare receive on the result
+	// channel (or a select without the timer) waits for as long as the dial or the peer's greeting takes
+	{
+		isTimer := func(v ssa.Value) bool {
+			call, _ := callOf(v)
+			return call != nil && calleeID(&call.Call) == "time.After"
+		}
+		eachInstr(g, func(in ssa.Instruction) {
+			switch x := in.(type) {
+			case *ssa.UnOp:
+				if x.Op == token.ARROW && !isTimer(x.X) {
+					c.bad("connect/every-wait-timed", c.ipos(in), "the waiting goroutine receives outside a timed select: the grace period does not bound this wait (sendAction, and with it the in-band fallback, is held up)")
+				}
+			case *ssa.Select:
+				if !x.Blocking {
+					return
+				}
+				has := false
+				for _, st := range x.States {
+					if st.Send == nil && isTimer(st.Chan) {
+						has = true
+					}
+				}
+				c.check(has, "connect/every-wait-timed", c.ipos(in), "each blocking wait of the tunnel set-up has the timer arm", "a blocking select of the tunnel set-up has no timer arm")
+			}
+		})
+	}
 	// the grace period covers the dial too: the connector is called by the goroutine that is waited for, never by the
 	// function that does the timed wait (a connector that blocks would hold tunnelInitWG, and with it sendAction, for as long as it likes)
 	nDial := 0
